@@ -32,7 +32,7 @@ def decl_names(fs):
     return names
 
 
-def relevant_axioms(formulas, lemma_names=()):
+def relevant_axioms(formulas, lemma_names=(), unfold=()):
     """Definitional axioms (and used lemma statements) whose symbols occur in the query, to a fixpoint."""
     names = decl_names(formulas)
     chosen, out = set(), []
@@ -44,6 +44,8 @@ def relevant_axioms(formulas, lemma_names=()):
     while changed:
         changed = False
         for n, f, d in pool:
+            if n in speclib.OPAQUE_DEFS and d not in unfold:
+                continue
             if n not in chosen and d in names:
                 chosen.add(n)
                 out.append((n, f))
@@ -57,7 +59,7 @@ def relevant_axioms(formulas, lemma_names=()):
 def to_smt2(ob, lemma_names=(), extra=()):
     s = z3.Solver()
     fs = list(ob.assumptions) + [ob.goal] + list(extra)
-    ax = relevant_axioms(fs, lemma_names)
+    ax = relevant_axioms(fs, lemma_names, getattr(ob, 'unfold', ()))
     for _, f in ax:
         s.add(f)
     for f in extra:
